@@ -1105,4 +1105,98 @@ example : (match runOps 8 docCtx [.defaults docAdd, .merge docAdd, .step true (s
                dictGet? r (.str "none") == some (.str "x") && (dictGet? r (.str "defaults")).isSome
     | .error _ => false) = true := by decide +kernel
 
+/-! ## Incoming keys of EVERY kind are formatted, at every site
+
+  "Both apply formatting to incoming keys": keys are `Val`s in the model — str, int, bool, None, float, bytes,
+  tuples (nested) are all inside it (`hashable`); a frozenset key is not (the tree model has one, mutable, set
+  kind): such cases are implementation-only in the check, judged by the monitors written from the property text.
+  Special tags are unhashable in the real code and cannot be keys. Nothing below assumes anything about the kind
+  of `k`: the key of every item that `merge_recurse` / `defaults_recurse` walk themselves (the root — `rebuild = id` —
+  and every existing mapping, any depth — any `rebuild`) goes through the FULL formatter; a tuple key is therefore
+  formatted member by member (`tuple_key_memberwise`, nested by iteration), and the key of an entry below a
+  brand-new path — formatted by the formatter's Mapping branch — is the same formatted key (`new_path_key_agrees`):
+  the two sites cannot disagree. `strOnlyKeys` is the counter-model (format a key only when it is a str / special
+  tag): it differs from the model on a tuple key (`str_only_keys_differs`). -/
+
+/-- Every successful item of `merge_recurse`, at any site: the key — of any kind — was formatted by the
+    formatter, the formatted key is hashable, it IS a key of the destination afterwards and heads the trace. -/
+theorem merge_item_key_formatted {fmt : Fmt}
+    {recur : (Pairs → Pairs) → Pairs → Pairs → Except Exc (Pairs × Trace)}
+    {rebuild : Pairs → Pairs} {cur : Pairs} {k v : Val} {cur1 : Pairs} {t1 : Trace}
+    (h : mergeItem fmt recur rebuild cur k v = .ok (cur1, t1)) :
+    ∃ fk, fmt (ctxOf (rebuild cur)) k = .ok fk ∧ hashable fk = true ∧ (dictGet? cur1 fk).isSome = true ∧
+      (t1.head?).map (·.1) = some [fk] := by
+  obtain ⟨fk, hk, hh, hc⟩ := mergeItem_spec h
+  refine ⟨fk, hk, hh, ?_⟩
+  rcases hc with ⟨_, rfl, x, _, rfl⟩ | ⟨csub, sub, csub', ts, rfl, _, _, rfl, rfl⟩
+  · simp [dictGet?_dictSet_eq]
+  · simp [dictGet?_dictSet_eq]
+
+/-- The same for `defaults_recurse`: the formatted key is a key of the destination afterwards (it was one
+    already, or it has been added), whatever kind of value the raw key is. -/
+theorem defaults_item_key_formatted {fmt : Fmt}
+    {recur : (Pairs → Pairs) → Pairs → Pairs → Except Exc (Pairs × Trace)}
+    {rebuild : Pairs → Pairs} {cur : Pairs} {k v : Val} {cur1 : Pairs} {t1 : Trace}
+    (h : defaultsItem fmt recur rebuild cur k v = .ok (cur1, t1)) :
+    ∃ fk, fmt (ctxOf (rebuild cur)) k = .ok fk ∧ hashable fk = true ∧ (dictGet? cur1 fk).isSome = true := by
+  obtain ⟨fk, hk, hh, hc⟩ := defaultsItem_spec h
+  refine ⟨fk, hk, hh, ?_⟩
+  rcases hc with ⟨old, hold, _, rfl, _⟩ | ⟨_, fv, _, rfl, _⟩ | ⟨csub, sub, csub', ts, rfl, _, _, rfl, _⟩
+  · simp [hold]
+  · simp [dictGet?_dictSet_eq]
+  · simp [dictGet?_dictSet_eq]
+
+/-- A tuple key is formatted member by member (a member that is itself a tuple: apply again). -/
+theorem tuple_key_memberwise (fuel : Nat) (ctx : Ctx) (ks : List Val) (fk : Val)
+    (h : fmtVal (fuel + 1) ctx (.tuple ks) = .ok fk) :
+    ∃ ys, fk = .tuple ys ∧ ys.length = ks.length ∧ C09.All₂ (fun x y => fmtVal fuel ctx x = .ok y) ks ys :=
+  C09.fmt_tuple_elementwise fuel ctx false ks fk h
+
+/-- Below a brand-new path the entry goes through the formatter's Mapping branch: the key stored there is the
+    key `get_formatted_value(k)` gives — the very function `mergeItem` / `defaultsItem` apply on existing paths. -/
+theorem new_path_key_agrees (fuel : Nat) (ctx : Ctx) (k v r : Val)
+    (h : fmtVal (fuel + 1) ctx (.dict [(k, v)]) = .ok r) :
+    ∃ fk fv, r = .dict [(fk, fv)] ∧ fmtVal (fuel + 1) ctx k = .ok fk ∧ fmtVal (fuel + 1) ctx v = .ok fv := by
+  simp only [fmtVal, fmtIter, mapE] at h
+  cases hk : fmtIter fuel ctx false k with
+  | error e => simp [hk] at h
+  | ok fk =>
+    cases hv : fmtIter fuel ctx false v with
+    | error e => simp [hk, hv] at h
+    | ok fv =>
+      simp [hk, hv, rebuildDict, dictSet] at h
+      exact ⟨fk, fv, h.symm, C09.fmtIter_mono (Nat.le_succ _) hk, C09.fmtIter_mono (Nat.le_succ _) hv⟩
+
+/-- Counter-model: a formatter that leaves everything but str / special tags alone (what a key site guarded by
+    `isinstance(k, (str, SpecialTagDirective))` amounts to). -/
+def strOnlyKeys (fmt : Fmt) : Fmt := fun c v => if isStrLike v then fmt c v else .ok v
+
+def keyCtx : Pairs :=
+  [(.str "env", .str "prod"), (.tuple [.str "prod", .str "port"], .list [.int 80]),
+   (.str "svc", .dict [(.str "web", .dict [(.tuple [.str "prod", .tuple [.str "prod", .int 1]], .none)])])]
+
+def keyAdd : Val := .dict
+  [(.tuple [.str "{env}", .str "port"], .list [.int 443]),
+   (.str "svc", .dict [(.str "web", .dict [(.tuple [.str "{env}", .tuple [.str "{env}", .int 1]], .str "x {env}")])]),
+   (.str "fresh", .dict [(.tuple [.str "{env}", .str "port"], .str "{env}-8080")])]
+
+/-- tuple keys (nested too) at the root, at depth 3 under existing mappings and below a new path: formatted
+    everywhere; the existing list is extended, the existing None overwritten (merge) / kept (set_defaults) -/
+example : (match merge 8 keyCtx keyAdd with
+    | .ok (r, _) => r == [(.str "env", .str "prod"), (.tuple [.str "prod", .str "port"], .list [.int 80, .int 443]),
+        (.str "svc", .dict [(.str "web", .dict [(.tuple [.str "prod", .tuple [.str "prod", .int 1]], .str "x prod")])]),
+        (.str "fresh", .dict [(.tuple [.str "prod", .str "port"], .str "prod-8080")])]
+    | .error _ => false) = true := by decide +kernel
+
+example : (match setDefaults 8 keyCtx keyAdd with
+    | .ok (r, _) => r == keyCtx ++ [(.str "fresh", .dict [(.tuple [.str "prod", .str "port"], .str "prod-8080")])]
+    | .error _ => false) = true := by decide +kernel
+
+/-- the counter-model stores the entries under the RAW tuple keys on existing paths: it is not the model -/
+theorem str_only_keys_differs :
+    (match mergeWith (strOnlyKeys (fmtVal 8)) 8 keyCtx keyAdd, merge 8 keyCtx keyAdd with
+     | .ok (r1, _), .ok (r2, _) => r1 != r2 && (dictGet? r1 (.tuple [.str "{env}", .str "port"])).isSome
+     | _, _ => false) = true := by decide +kernel
+
+
 end Pypyr.C10
